@@ -807,7 +807,7 @@ func TestC04(t *testing.T) {
 		}
 
 		// ---- (a) every single-denom configuration over the main dimensions ----
-		if wi == 0 || (tier() == "thorough" && wi < 2) {
+		if wi == 0 { // thorough widens the sender / receiver / flag sets below
 			senders := []sdk.AccAddress{e.plain[0].addr, e.plain[1].addr, e.plain[2].addr, e.agents[0].addr, e.bypass[0].addr, e.bypass[1].addr,
 				e.feeColl.addr, e.mmod.addr}
 			for _, m := range []*c04MarkerCfg{pick(fundedMarkers(func(m *c04MarkerCfg) bool { return m.restricted && m.status == markertypes.StatusActive })),
@@ -916,7 +916,7 @@ func TestC04(t *testing.T) {
 			}
 			return out
 		}
-		nb := scale(1500, 15000)
+		nb := scale(1500, 10000)
 		for i := 0; i < nb; i++ {
 			q := randQuery()
 			ms := randMarkers(1 + r.Intn(3))
@@ -941,7 +941,7 @@ func TestC04(t *testing.T) {
 		}
 
 		// ---- (c) multi-send: one input, two or three outputs judged separately ----
-		nm := scale(150, 1500)
+		nm := scale(150, 1000)
 		for i := 0; i < nm; i++ {
 			q := randQuery()
 			if !e.funded(w, q.from) {
